@@ -369,7 +369,53 @@ func runC26(c *eng.Ctx) {
 			c.Guard("GUARD-auth", "identity-may-write-bucket", fn, eng.Entry(fn), okRets, can, "succeeds only for an identity that may write the target bucket (authRequest did not check any permission for this auth type)")
 		}
 	}
-	c.Expect("GUARD-auth", 12)
+	// canDo: a bucket-limited grant matches by prefix only in its wildcard form ("Read:buck*"); a plain grant
+	// ("Read:bucket") authorises exactly that bucket
+	if cd := c.NeedFunc("weed/s3api", "(*Identity).canDo"); cd != nil {
+		wildcard := eng.PassEdges(cd, func(cond ssa.Value) (bool, bool) {
+			call, ok := cond.(*ssa.Call)
+			if !ok || !eng.CalleeIs(call, "strings.HasSuffix") {
+				return false, false
+			}
+			sfx, isS := eng.ConstString(call.Call.Args[1])
+			return isS && sfx == "*", true
+		})
+		var prefixGrants, exactGrants []ssa.Instruction
+		for _, r := range eng.Find(cd, eng.IsReturn) {
+			if t, isT := eng.ConstBool(r.(*ssa.Return).Results[0]); !isT || !t {
+				continue
+			}
+			// the test that leads to this grant
+			for _, p := range r.Block().Preds {
+				iff, isIf := p.Instrs[len(p.Instrs)-1].(*ssa.If)
+				if !isIf {
+					continue
+				}
+				if call, isCall := iff.Cond.(*ssa.Call); isCall && eng.CalleeIs(call, "strings.HasPrefix") {
+					prefixGrants = append(prefixGrants, iff)
+				}
+				if b, isB := iff.Cond.(*ssa.BinOp); isB && b.Op == token.EQL {
+					if bt, isBasic := b.X.Type().Underlying().(*types.Basic); isBasic && bt.Kind() == types.String && eng.Mentions(b.Y, 4, func(v ssa.Value) bool { return eng.IsParamLike(v, "bucket") }) {
+						exactGrants = append(exactGrants, iff)
+					}
+				}
+			}
+		}
+		if len(prefixGrants) == 0 {
+			c.Undecided("GUARD-auth", eng.FuncName(cd)+" wildcard", cd.Pos(), "prefix grants not found")
+		} else {
+			c.Guard("GUARD-auth", "prefix-match-only-for-wildcard-grants", cd, eng.Entry(cd), prefixGrants, wildcard, "a grant is matched by prefix only when it ends in '*'")
+		}
+		okExact := len(exactGrants) >= 2
+		for _, g := range exactGrants {
+			// exact comparisons are what a non-wildcard grant goes through
+			if hit, _ := eng.Search(eng.Entry(cd), eng.Is(g), eng.SearchOpt{Cut: wildcard}); hit == nil {
+				okExact = false
+			}
+		}
+		c.Ob("GUARD-auth", eng.FuncName(cd)+" plain-grant-is-exact", okExact, cd.Pos(), "a grant without '*' authorises by string equality with <action>:<bucket> (and Admin:<bucket>)")
+	}
+	c.Expect("GUARD-auth", 15)
 
 	// ---------------------------------------------------------------- (5) GUARD-iam
 	if ga := c.NeedFunc("weed/iamapi", "GetActions"); ga != nil {
